@@ -117,4 +117,100 @@ theorem casCallRanks_itemwise (d : MakeChangesDesc) (hd : d.Sound)
   rw [hloc, hmc, hs, hv]
   simp only [Option.map_some, seqCall, hg e c i f t hl, itemwise, List.map_map, Function.comp_def, z]
 
+/-! ### the driver -/
+
+/-- both sides are the same chain of `match`/`if` on the same discriminants (compiled to different auxiliary matchers) -/
+local macro "split_close" : tactic =>
+  `(tactic| repeat' (first | rfl | (split <;> rename_i hq <;> try simp only [hq, ↓reduceIte, if_true, if_false])))
+
+theorem simplifyPartRanks_eq (d : MakeChangesDesc) (hd : d.Sound) (P : Nat) (hP : 1 ≤ P) (cas : Oracle String μ)
+    (hc : PerItem cas) (e c : Bool) (dflt : String) (np0 : List Nat) (uniqInv : List (OChain μ))
+    (acc : List String × List (OChain μ)) (i : Nat) :
+    simplifyPartRanks d P cas e c dflt np0 uniqInv acc i = simplifyPart (seqCall cas) e c dflt np0 uniqInv acc i := by
+  obtain ⟨g, hg⟩ := hc
+  unfold simplifyPartRanks simplifyPart
+  simp only []
+  rw [casCallRanks_itemwise d hd g cas hg P hP e c i _ _ (by simp)]
+
+theorem simplifyAllRanks_eq (d : MakeChangesDesc) (hd : d.Sound) (P : Nat) (hP : 1 ≤ P) (cas : Oracle String μ)
+    (hc : PerItem cas) (e c : Bool) (dflt : String) (np0 : List Nat) (uniqInv : List (OChain μ)) (is : List Nat)
+    (acc : List String × List (OChain μ)) :
+    simplifyAllRanks d P cas e c dflt np0 uniqInv is acc = simplifyAll (seqCall cas) e c dflt np0 uniqInv is acc := by
+  induction is generalizing acc with
+  | nil => rfl
+  | cons i is ih =>
+    simp only [simplifyAllRanks, simplifyAll, simplifyPartRanks_eq d hd P hP cas hc]
+    cases simplifyPart (seqCall cas) e c dflt np0 uniqInv acc i with
+    | none => rfl
+    | some acc' => exact ih acc'
+
+theorem roundRanks_eq (d : MakeChangesDesc) (hd : d.Sound) (P : Nat) (hP : 1 ≤ P) (simps : Nat → Oracle String μ)
+    (hc : ∀ g, PerItem (simps g)) (np : String → Nat) (maxParam : Nat) (dflt : String) (e : Bool) (st : St String μ) :
+    roundRanks d P simps np maxParam dflt e st = round (fun g => seqCall (simps g)) np maxParam dflt e st := by
+  unfold roundRanks round keysKnown
+  simp only [simplifyAllRanks_eq d hd P hP _ (hc _)]
+  split_close
+
+theorem loopRanks_eq (d : MakeChangesDesc) (hd : d.Sound) (P : Nat) (hP : 1 ≤ P) (simps : Nat → Oracle String μ)
+    (hc : ∀ g, PerItem (simps g)) (np : String → Nat) (maxParam : Nat) (dflt : String) (e : Bool) (fuel : Nat)
+    (st : St String μ) :
+    loopRanks d P simps np maxParam dflt e fuel st = loop (fun g => seqCall (simps g)) np maxParam dflt e fuel st := by
+  induction fuel generalizing st with
+  | zero => rfl
+  | succ n ih =>
+    simp only [loopRanks, loop, roundRanks_eq d hd P hP simps hc]
+    split
+    · rfl
+    · cases round (fun g => seqCall (simps g)) np maxParam dflt e st with
+      | none => rfl
+      | some st' => exact ih st'
+
+theorem doSympyRanks_eq (d : MakeChangesDesc) (hd : d.Sound) (P : Nat) (hP : 1 ≤ P) (simps : Nat → Oracle String μ)
+    (hc : ∀ g, PerItem (simps g)) (np : String → Nat) (maxParam : Nat) (dflt : String) (fuel : Nat)
+    (allFun symKeys : List String) :
+    doSympyRanks d P simps np maxParam dflt fuel allFun symKeys
+      = doSympy (fun g => seqCall (simps g)) np maxParam dflt fuel allFun symKeys := by
+  unfold doSympyRanks doSympy
+  simp only [loopRanks_eq d hd P hP simps hc]
+  split_close
+
+theorem dupMainRanks_eq (d : MakeChangesDesc) (hd : d.Sound) (P : Nat) (hP : 1 ≤ P) (has : String → Nat → Bool)
+    (symp : String → String) (simps : Nat → Oracle String μ) (hc : ∀ g, PerItem (simps g))
+    (cancel : Nat → Option (List (Entry μ)) → Option (List (Entry μ))) (dflt : String) (fuelMP fuel : Nat)
+    (gen exOrig : List String) (perm : List Nat) :
+    dupMainRanks d P has symp simps cancel dflt fuelMP fuel gen exOrig perm
+      = dupMain has symp (fun g => seqCall (simps g)) cancel dflt fuelMP fuel gen exOrig perm := by
+  unfold dupMainRanks dupMain
+  simp only [doSympyRanks_eq d hd P hP simps hc]
+  split_close
+
+/-! ### soundness goes through make_changes -/
+
+section Sound
+variable {Θ V : Type} (den : String → Θ → V) (np : String → Nat) (ap : μ → Θ → Θ)
+
+/-- make_changes keeps the old chain where the string did not change: still a sound answer -/
+theorem outOK_merge : ∀ (f : List String) (t : List (OChain μ)) (f' : List String) (t' : List (OChain μ)),
+    OutOK den np ap f t f' t' → OutOK den np ap f t f' (mergeChanged f f' t t')
+  | [], [], [], [], _ => by simp [mergeChanged, OutOK]
+  | s :: f, o :: t, s' :: f', o' :: t', h => by
+    simp only [OutOK] at h
+    simp only [mergeChanged, List.zip_cons_cons, List.zipWith_cons_cons, OutOK]
+    refine ⟨?_, outOK_merge f t f' t' h.2⟩
+    by_cases hs : s' = s
+    · subst hs
+      simp only [bne_self_eq_false, Bool.false_eq_true, if_false]
+      exact ⟨[], ⟨by simp, id⟩, sound_refl den np ap s'⟩
+    · have : (s' != s) = true := by simpa using hs
+      simp only [this, if_true]
+      exact h.1
+  | [], [], [], _ :: _, h | [], [], _ :: _, _, h | [], _ :: _, _, _, h | _ :: _, [], _, _, h
+  | _ :: _, _ :: _, [], _, h | _ :: _, _ :: _, _ :: _, [], h => by simp [OutOK] at h
+
+theorem seqCall_sound (cas : Oracle String μ) (h : OracleSound den np ap cas) : OracleSound den np ap (seqCall cas) := by
+  intro e c i f t hl
+  exact outOK_merge den np ap f t _ _ (h e c i f t hl)
+
+end Sound
+
 end ESR.C03
